@@ -192,7 +192,11 @@ class GapAnalysis:
                     if a:
                         self.env[t.id] = a
                 elif isinstance(t, ast.Tuple):
-                    if isinstance(val, ast.Name) and val.id in self.noncomment_lists:
+                    lead = val
+                    if isinstance(val, ast.Subscript) and isinstance(val.slice, ast.Slice) and val.slice.lower is None and val.slice.step is None \
+                            and isinstance(val.slice.upper, ast.Constant) and val.slice.upper.value == len(t.elts):
+                        lead = val.value  # `a, b = nodes[:2]` names the first two, like `a, b = nodes`
+                    if isinstance(lead, ast.Name) and lead.id in self.noncomment_lists:
                         for i, e in enumerate(t.elts):
                             if isinstance(e, ast.Name):
                                 self.env[e.id] = f"pos:{i}"
